@@ -468,5 +468,151 @@ theorem fiber_iadd_eq_add_partial [Add ν] (dflt : ν) (hr : ∀ x : ν, x + dfl
     · simp [hx, hy, hr]
   · simp [hy]
 
+/-! ### `*=` with a fiber -/
+
+theorem andMerge_sorted {α β : Type} (a : Fib κ α) (b : Fib κ β) (ha : Sorted a) (hb : Sorted b) :
+    Sorted (andMerge a b) := by
+  rw [and_spec a b ha hb]
+  unfold andSpec Sorted
+  refine List.Pairwise.filterMap _ ?_ ha
+  intro e e' hlt r hr r' hr'
+  cases h1 : lookup b e.1 with
+  | none => simp [h1] at hr
+  | some pb =>
+    cases h2 : lookup b e'.1 with
+    | none => simp [h2] at hr'
+    | some pb' =>
+      simp [h1] at hr; simp [h2] at hr'
+      subst hr; subst hr'
+      exact hlt
+
+theorem mem_andMerge {α β : Type} (a : Fib κ α) (b : Fib κ β) (ha : Sorted a) (hb : Sorted b)
+    (r : κ × α × β) (hr : r ∈ andMerge a b) : (r.1, r.2.1) ∈ a ∧ lookup b r.1 = some r.2.2 := by
+  rw [and_spec a b ha hb] at hr
+  unfold andSpec at hr
+  obtain ⟨e, he, hf⟩ := List.mem_filterMap.1 hr
+  cases h1 : lookup b e.1 with
+  | none => simp [h1] at hf
+  | some pb =>
+    simp [h1] at hf
+    subst hf
+    exact ⟨he, h1⟩
+
+/-- a fiber product of well-formed trees is well-formed -/
+theorem mulT_WF [Mul ν] (dflt : ν) : ∀ (d : Nat) (a b : Tree κ ν d), WF d a → WF d b →
+    WF d (mulT dflt d a b) := by
+  intro d
+  induction d with
+  | zero => intro a b _ _; simp [WF]
+  | succ d ih =>
+    intro a b ha hb
+    have hsa := sorted_present dflt d a ((WF_succ d a).1 ha).1
+    have hsb := sorted_present dflt d b ((WF_succ d b).1 hb).1
+    have hdef : (show List (κ × Tree κ ν d) from mulT dflt (d + 1) a b) =
+        (andMerge (present dflt d a) (present dflt d b)).map
+          (fun r => (r.1, mulT dflt d r.2.1 r.2.2)) := by
+      rw [mulT]
+    rw [WF_succ, hdef]
+    refine ⟨sorted_map_key _ (fun r => mulT dflt d r.2.1 r.2.2) (andMerge_sorted _ _ hsa hsb), ?_⟩
+    intro e he
+    obtain ⟨r, hr, rfl⟩ := List.mem_map.1 he
+    obtain ⟨h1, h2⟩ := mem_andMerge _ _ hsa hsb r hr
+    have hwa : WF d r.2.1 := by
+      unfold present at h1
+      exact ((WF_succ d a).1 ha).2 _ (List.mem_filter.1 h1).1
+    have hwb : WF d r.2.2 := WF_of_lookup_present hb h2
+    exact ih _ _ hwa hwb
+
+/-- `<<=` of a fiber (`nonEmpty`: a copy of the presented elements) keeps the dense view -/
+theorem denseAt_nonEmpty (dflt : ν) : ∀ (d : Nat) (t : Tree κ ν d), WF d t → ∀ p : List κ,
+    denseAt dflt d (nonEmpty dflt d t) p = denseAt dflt d t p := by
+  intro d
+  induction d with
+  | zero => intro t _ p; rfl
+  | succ d ih =>
+    intro t ht p
+    cases p with
+    | nil => rw [denseAt_nil, denseAt_nil]
+    | cons c q =>
+      have hs := ((WF_succ d t).1 ht).1
+      have hdef : (show List (κ × Tree κ ν d) from nonEmpty dflt (d + 1) t) =
+          (present dflt d t).map (fun e => (e.1, nonEmpty dflt d e.2)) := by
+        rw [nonEmpty]; rfl
+      rw [denseAt_cons', hdef,
+        lookup_map_val (present dflt d t) (fun _ (v : Tree κ ν d) => nonEmpty dflt d v) c]
+      cases hl : lookup (present dflt d t) c with
+      | none =>
+        rw [denseAt_not_presented dflt d t hs c q hl]; rfl
+      | some u =>
+        rw [denseAt_presented dflt d t hs c q u hl]
+        exact ih u (WF_of_lookup_present ht hl) q
+
+/-- lookup after `a *= b`: an element of `a` is rewritten only where both operands present the
+    coordinate; every other element of `a` is still there -/
+theorem lookup_imulT [Mul ν] (dflt : ν) (d : Nat) (a b : Tree κ ν (d + 1))
+    (ha : WF (d + 1) a) (hb : WF (d + 1) b) (c : κ) :
+    lookup (show List (κ × Tree κ ν d) from imulT dflt d a b) c =
+      match lookup (show List (κ × Tree κ ν d) from a) c with
+      | none => none
+      | some x =>
+        match lookup (present dflt d b) c with
+        | some y => some (if isEmpty dflt d x then x else nonEmpty dflt d (mulT dflt d x y))
+        | none => some x := by
+  have hsa := ((WF_succ d a).1 ha).1
+  have hsb := sorted_present dflt d b ((WF_succ d b).1 hb).1
+  have h := lookup_imulMerge
+    (fun (pa pb : Tree κ ν d) => if isEmpty dflt d pa then pa else nonEmpty dflt d (mulT dflt d pa pb))
+    (show List (κ × Tree κ ν d) from a) (present dflt d b) hsa hsb c
+  have hdef : (show List (κ × Tree κ ν d) from imulT dflt d a b) =
+      imulMerge (fun (pa pb : Tree κ ν d) => if isEmpty dflt d pa then pa else nonEmpty dflt d (mulT dflt d pa pb))
+        (show List (κ × Tree κ ν d) from a) (present dflt d b) := rfl
+  rw [hdef, h]
+  cases lookup (show List (κ × Tree κ ν d) from a) c with
+  | none => rfl
+  | some x => cases lookup (present dflt d b) c <;> rfl
+
+/-- **In-place product = value-returning product (partial).** If every coordinate `a` presents
+    is also presented by `b`, `a *= b` leaves `a` with the dense view of `a * b` (any depth, any
+    default).  Without the hypothesis it does not: `today_fiber_imul_keeps_unmatched`. -/
+theorem fiber_imul_eq_mul_partial [Mul ν] (dflt : ν) (d : Nat) (a b : Tree κ ν (d + 1))
+    (ha : WF (d + 1) a) (hb : WF (d + 1) b)
+    (hcov : ∀ c, (lookup (present dflt d a) c).isSome = true → (lookup (present dflt d b) c).isSome = true)
+    (p : List κ) :
+    denseAt dflt (d + 1) (imulT dflt d a b) p = denseAt dflt (d + 1) (mulT dflt (d + 1) a b) p := by
+  cases p with
+  | nil => rw [denseAt_nil, denseAt_nil]
+  | cons c q =>
+    have hsa := ((WF_succ d a).1 ha).1
+    rw [denseAt_cons', denseAt_cons', lookup_imulT dflt d a b ha hb c, lookup_mulT dflt d a b ha hb c,
+      lookup_present dflt d a hsa c]
+    cases hl : lookup (show List (κ × Tree κ ν d) from a) c with
+    | none => rfl
+    | some x =>
+      by_cases he : isEmpty dflt d x = true
+      · have hx : denseAt dflt d x q = dflt := denseAt_of_isEmpty dflt d x q he
+        cases lookup (present dflt d b) c <;> simp [Option.filter, he, optDense, hx]
+      · have hpa : lookup (present dflt d a) c = some x := by
+          rw [lookup_present dflt d a hsa c, hl]; simp [Option.filter, he]
+        have := hcov c (by simp [hpa])
+        obtain ⟨y, hy⟩ := Option.isSome_iff_exists.1 this
+        have hwx : WF d x := WF_of_lookup ha hl
+        have hwy : WF d y := WF_of_lookup_present hb hy
+        simp only [hy, Option.filter, he, Bool.not_false, if_true, Bool.false_eq_true, if_false,
+          optDense_some]
+        simp [optDense, denseAt_nonEmpty dflt d _ (mulT_WF dflt d x y hwx hwy) q]
+
+/-- **Today's `*=` keeps what it does not match**: at a coordinate `b` does not present, `a`'s
+    element survives `a *= b` unchanged, while `a * b` has nothing there. -/
+theorem today_fiber_imul_keeps_unmatched [Mul ν] (dflt : ν) (d : Nat) (a b : Tree κ ν (d + 1))
+    (ha : WF (d + 1) a) (hb : WF (d + 1) b) (c : κ) (hnb : lookup (present dflt d b) c = none) :
+    lookup (show List (κ × Tree κ ν d) from imulT dflt d a b) c =
+      lookup (show List (κ × Tree κ ν d) from a) c ∧
+    lookup (show List (κ × Tree κ ν d) from mulT dflt (d + 1) a b) c = none := by
+  constructor
+  · rw [lookup_imulT dflt d a b ha hb c, hnb]
+    cases lookup (show List (κ × Tree κ ν d) from a) c <;> rfl
+  · rw [lookup_mulT dflt d a b ha hb c, hnb]
+    cases lookup (present dflt d a) c <;> rfl
+
 end
 end Ft
